@@ -36,6 +36,12 @@ func (f *GoFunction) SolemnlyDeclareCompliance(flags ComplianceFlags) {
 		// This is a sign this function is not called solemnly enough!
 		panic("Invalid safety flags")
 	}
+	if f.safetyFlags&flags == flags {
+		// Nothing to add.  Not writing matters for function values shared by
+		// several runtimes (package-level GoFunctions): loading a library in
+		// two runtimes concurrently must not write to them.
+		return
+	}
 	f.safetyFlags |= flags
 }
 
